@@ -54,7 +54,7 @@ func (s *Service) proxyToSingleEndpoint(ctx context.Context, w http.ResponseWrit
 	stats.EndpointName = endpoint.Name
 
 	// Check circuit breaker first
-	cb := s.GetCircuitBreaker(endpoint.Name)
+	cb := s.GetCircuitBreaker(endpointKey(endpoint))
 	if cb != nil && cb.IsOpen() {
 		rlog.Warn("Circuit breaker is open for endpoint", "endpoint", endpoint.Name)
 		s.RecordFailure(ctx, endpoint, time.Since(stats.StartTime), fmt.Errorf("circuit breaker open"))
@@ -77,7 +77,7 @@ func (s *Service) proxyToSingleEndpoint(ctx context.Context, w http.ResponseWrit
 	}
 
 	// Get endpoint-specific connection pool and transport
-	pool := s.getOrCreateEndpointPool(endpoint.Name)
+	pool := s.getOrCreateEndpointPool(endpointKey(endpoint))
 	transport := pool.transport
 
 	proxyReq, err := s.prepareProxyRequest(ctx, r, targetURL, stats)
